@@ -7,6 +7,7 @@ import Bita.Proofs.TryInit
 import Bita.Proofs.ProtoRoundtrip
 import Bita.Proofs.Schedule
 import Bita.Proofs.CliFs
+import Bita.Proofs.OptionsCompose
 
 namespace Bita.Props.C11
 open Bita Bita.Proto Bita.Spec Bita.Proofs
@@ -126,5 +127,76 @@ theorem lib_temp_file_flushed_fact : Gen.libTempFlushedBeforeRewind = true := by
 /-- The command line refuses chunk sizes that do not fit the 32-bit fields of the dictionary (read
 from cli.rs on every run; F21 repair): the `u32` bounds of `OptsOK` are what the CLI enforces. -/
 theorem cli_sizes_fit_u32_fact : Gen.cliSizesFitU32 = true := by decide
+
+
+/-! ### From the option texts to the recorded values (src/cli.rs, src/string_utils.rs,
+`FilterBits::from_size`; modelled in `Bita.Model.Options`, tied by the in-process suite `l1 opts`) -/
+
+/-- A size text is accepted with value `n` iff it is a number, alone or followed by one of the units
+of the table read from string_utils.rs, and `n` is the number times the unit's multiplier, below 2^64. -/
+theorem size_text_denotes (s : Options.Txt) (n : Nat) :
+    Options.parseHumanSize s = .ok n ↔
+      ∃ num v m, Options.parseUnsigned 64 num = some v ∧ n = m * v ∧ n < 2 ^ 64 ∧
+        ((s = num ∧ m = 1) ∨ ∃ u, (u, m) ∈ Gen.sizeUnits ∧ s = num ++ u) :=
+  Proofs.parseHumanSize_ok_iff s n
+
+/-- `parse_chunker_opts` accepts exactly `2 <= avg`, `min <= avg <= max < 2^32`, `window < 2^32` (the last
+two are the F21 repair) and records `log2 avg - 1` filter bits. -/
+theorem chunker_options_accepted_iff (avg mn mx w : Nat) (f : FilterConfig) :
+    Options.parseChunkerOpts avg mn mx w = .ok f ↔
+      (2 ≤ avg ∧ mn ≤ avg ∧ avg ≤ mx ∧ mx < 2 ^ 32 ∧ w < 2 ^ 32 ∧ f = ⟨Nat.log2 avg - 1, mn, mx, w⟩) :=
+  Proofs.parseChunkerOpts_ok_iff avg mn mx w f
+
+/-- What an accepted `bita compress` command line hands to the writer: every size fits the 32-bit
+field it is recorded in, the hash length is in the range the reader accepts, the compression is
+none or brotli at a level within its range, the temp file is `tempPathOf output`. -/
+theorem cli_accepts_only_recordable_options (a : Options.CompressArgs) (p : Options.CompressParsed)
+    (h : Options.parseCompress a = .ok p) :
+    p.cmd.output = a.output ∧ p.cmd.temp = tempPathOf a.output ∧ p.cmd.flags = ⟨a.force, false, false⟩ ∧
+    p.stdin = a.input.isNone ∧ p.cmd.opts.metadata = [] ∧
+    Gen.cliHashLengthMin ≤ p.cmd.opts.hashLen ∧ p.cmd.opts.hashLen ≤ Gen.hashMaxLen ∧
+    (p.cmd.opts.compression = none ∨ ∃ l, 1 ≤ l ∧ l ≤ Gen.brotliMaxLevel ∧
+      p.cmd.opts.compression = some (Gen.enum_CompressionType_BROTLI, l)) ∧
+    (match p.cmd.opts.cfg with
+      | .buzhash f | .rollsum f =>
+        f.minSize ≤ f.maxSize ∧ 2 ≤ f.maxSize ∧ f.maxSize < 2 ^ 32 ∧ f.window < 2 ^ 32 ∧ f.bits ≤ 30
+      | .fixed n => n < 2 ^ 32) :=
+  Proofs.parseCompress_ok a p h
+
+/-- **Requested = recorded = reported**, from the command line: for every accepted command line
+outside the misuse set (`Proofs.NotMisuse`), the reader's conversions applied to what the CLI
+writer records give back exactly the configuration, hash length and compression the texts denote. -/
+theorem cli_requested_is_reported (a : Options.CompressArgs) (p : Options.CompressParsed)
+    (h : Options.parseCompress a = .ok p) (hm : NotMisuse p.cmd.opts.cfg)
+    (H : Bytes → Bytes) (comp : Bytes → Bytes) (src : Bytes) :
+    ∃ prm c, (dictionaryOf H "cli" comp p.cmd.opts src).1.chunkerParams = some prm ∧
+      (dictionaryOf H "cli" comp p.cmd.opts src).1.chunkCompression = some c ∧
+      configFromParams prm = .ok p.cmd.opts.cfg ∧ prm.chunkHashLength = p.cmd.opts.hashLen ∧
+      compressionFromDict [] c = .ok p.cmd.opts.compression ∧
+      (dictionaryOf H "cli" comp p.cmd.opts src).1.metadata = [] :=
+  Proofs.cli_requested_is_reported a p h hm H comp src
+
+-- non-vacuity: the defaults; a command line with units, a sign and BuzHash; the 4 GiB boundary of F21;
+-- the overflow of the size multiplication; a target average without a filter bit
+def exDefaults : Options.CompressArgs := { output := "a.cba" }
+def exUnits : Options.CompressArgs :=
+  { output := "x/y.z", avg := some ['+', '5', 'K', 'i', 'B'], min := some ['1'], max := some ['3', 'M', 'i', 'B'],
+    hashChunking := some ['B', 'u', 'z', 'H', 'a', 's', 'h'], hashLength := some ['0', '8'],
+    compression := some ['n', 'o', 'n', 'e'] }
+def exMax (t : Options.Txt) : Options.CompressArgs := { output := "a", max := some t }
+def exAvg3 : Options.CompressArgs := { output := "a", avg := some ['3'], min := some ['0'] }
+
+example : ∃ p, Options.parseCompress exDefaults = .ok p ∧
+    p.cmd.opts.cfg = .rollsum ⟨15, 16384, 16777216, 64⟩ ∧ p.cmd.opts.hashLen = 64 := by
+  refine ⟨_, rfl, ?_⟩; decide +kernel
+example : ∃ p, Options.parseCompress exUnits = .ok p ∧
+    p.cmd.opts.cfg = .buzhash ⟨11, 1, 3145728, 16⟩ ∧ p.cmd.opts.hashLen = 8 ∧ p.cmd.opts.compression = none := by
+  refine ⟨_, rfl, ?_⟩; decide +kernel
+example : (Options.parseCompress (exMax ['4', 'G', 'i', 'B'])).isRefused = true := by decide +kernel
+example : ∃ p, Options.parseCompress (exMax ['4', '0', '9', '5', 'M', 'i', 'B']) = .ok p := ⟨_, rfl⟩
+example : Options.parseHumanSize ['1', '7', '1', '7', '9', '8', '6', '9', '1', '8', '4', 'G', 'i', 'B'] = .panic := by
+  decide +kernel
+example : ∃ p, Options.parseCompress exAvg3 = .ok p ∧ ¬ NotMisuse p.cmd.opts.cfg := by
+  refine ⟨_, rfl, ?_⟩; decide +kernel
 
 end Bita.Props.C11
